@@ -78,6 +78,7 @@ type ChainRes struct {
 	wrapStack []string
 	Panicked  bool
 	BeforeP   int // body bytes accepted by the client before the panic was raised
+	AppP      int // bytes the application had written when the panic was raised
 	StatusP   int // statuses written before the panic
 }
 
@@ -133,6 +134,7 @@ func (e *chainEnv) crash(point string) {
 	if r.PanicAt == point && !res.Panicked {
 		res.Panicked = true
 		res.BeforeP = len(res.W.Body)
+		res.AppP = len(res.App)
 		res.StatusP = len(res.W.Statuses)
 		if t := sim.Cur(); t != nil {
 			t.Count("fault-panic")
